@@ -733,6 +733,32 @@ def rule_r10(ctx) -> List[R.Inst]:
             if any(isinstance(x, ast.Call) and isinstance(x.func, ast.Attribute) and x.func.attr in ("update", "add") and
                    isinstance(x.func.value, ast.Name) and x.func.value.id in names for x in ast.walk(n)):
                 covered |= {e.id for e in n.iter.elts}
+    # (c) `keys.add(v)` BEFORE the buffers receive v, in a block whose later statements contain every such append: the position is
+    # recorded once per row, whatever kinds of objects the row holds
+    from ..normal import _blocks
+    for blk in _blocks(fn.node):
+        for i, st in enumerate(blk):
+            if isinstance(st, ast.Expr) and isinstance(st.value, ast.Call) and isinstance(st.value.func, ast.Attribute) and \
+                    st.value.func.attr == "add" and isinstance(st.value.func.value, ast.Name) and st.value.func.value.id in names and \
+                    st.value.args and isinstance(st.value.args[0], ast.Name):
+                v = st.value.args[0].id
+                rebound = any(isinstance(x, ast.Name) and x.id == v and isinstance(x.ctx, ast.Store) for s2 in blk[i + 1:] for x in ast.walk(s2))
+                if rebound:
+                    continue
+                for s2 in blk[i + 1:]:
+                    for x in ast.walk(s2):
+                        if isinstance(x, ast.Call) and isinstance(x.func, ast.Attribute) and x.func.attr == "append" and x.args and \
+                                isinstance(x.args[0], ast.Name) and x.args[0].id == v and isinstance(x.func.value, ast.Subscript) and \
+                                isinstance(x.func.value.value, ast.Name):
+                            covered.add(x.func.value.value.id)
+                        if isinstance(x, ast.Assign) and isinstance(x.targets[0], ast.Subscript) and any(
+                                isinstance(y, ast.Name) and y.id == v for y in ast.walk(x.value)):
+                            b = x.targets[0]
+                            while isinstance(b, ast.Subscript):
+                                b = b.value
+                            if isinstance(b, ast.Name):
+                                covered.add(b.id)
+    # … and no append of a position outside such a block
     missing = sorted(set(cons) - covered)
     if missing:
         c = cons[missing[0]]
